@@ -100,9 +100,12 @@ MapCode(vs, x) ==
       sn == IF den < 0 THEN -num ELSE num
       sd == IF den < 0 THEN -den ELSE den
       cn == IF sn < 0 THEN 0 ELSE IF sn > sd THEN sd ELSE sn
-      g == Gcd(sd, cn)                                          \* (the fraction in lowest terms: 32-bit arithmetic)
-      pn == Pow(cn \div g, vs.p)  pd == Pow(sd \div g, vs.p)
-  IN [v |-> vs.o0 + ((vs.o1 - vs.o0) * pn) \div pd, ok |-> ((vs.o1 - vs.o0) * pn) % pd = 0]
+      g == Gcd(sd, cn)                                          \* the fraction in lowest terms
+      rn == cn \div g  rd == sd \div g
+      fits == rd <= (CASE vs.p = 1 -> 32768 [] vs.p = 2 -> 256 [] OTHER -> 32)   \* 32-bit arithmetic
+      pn == Pow(rn, vs.p)  pd == Pow(rd, vs.p)
+  IN IF fits THEN [v |-> vs.o0 + ((vs.o1 - vs.o0) * pn) \div pd, ok |-> ((vs.o1 - vs.o0) * pn) % pd = 0]
+     ELSE [v |-> vs.o0, ok |-> FALSE]                           \* (finer than the grid: not generated)
 
 \* Parameter::update of an idle parameter holding `vs`: Value::raw_value(info) or None (keep the raw value)
 ParamNew(vs, raw, self, vals) ==
@@ -355,7 +358,8 @@ Monitor ==
   ELSE IF r # "" THEN bad' = r /\ UNCHANGED mon
   ELSE bad' = "" /\ mon' = Upd(mon, ev')
 
-Next == INext /\ Monitor
+\* transitions whose arithmetic leaves the integer grid are not generated (the real floats would not be exact)
+Next == INext /\ ~inexact' /\ Monitor
 Spec == Init /\ [][Next]_vars
 
 \* ---------------------------------------------------------------- checked formulas
